@@ -411,7 +411,7 @@ Section Grid.
   Hypothesis Hcc : check_complete G k = true.
   Local Set Default Proof Using "Hshape Hcc".
 
-  Lemma cc_sub p r : (p < k)%nat -> In r G -> check_sub G p (length (edges G p)) r = true.
+  Lemma cc_sub p r : (p < k)%nat -> In r G -> check_sub G p (length (edges G p)) (max_right G p) r = true.
   Proof.
     intros Hp Hr. unfold check_complete in Hcc. rewrite forallb_forall in Hcc.
     specialize (Hcc p ltac:(apply in_seq; lia)). cbv zeta in Hcc. rewrite forallb_forall in Hcc. now apply Hcc.
@@ -427,12 +427,19 @@ Section Grid.
   Lemma sub_edges p r : (p < k)%nat -> In r G -> edges (sub_of G p r) p = edges G p.
   Proof.
     intros Hp Hr. pose proof (cc_sub p r Hp Hr) as H. unfold check_sub in H. cbv zeta in H.
-    apply andb_true_iff in H as [Hlen _]. apply Nat.leb_le in Hlen.
+    apply andb_true_iff in H as [H _]. apply andb_true_iff in H as [Hlen _]. apply Nat.leb_le in Hlen.
     apply increasing_ext; try apply edges_increasing.
     assert (Hincl : incl (edges (sub_of G p r) p) (edges G p)).
     { intros x Hx. apply edge_has_row in Hx as [r' [Hr' <-]]. apply start_in_edges. now apply sub_incl in Hr'. }
     intros x. split; [apply Hincl|].
     apply (NoDup_length_incl (increasing_NoDup _ (edges_increasing _ p)) Hlen Hincl).
+  Qed.
+
+  (* every sub-table reaches the parameter's overall largest right edge (the check added by fix 1620b43e) *)
+  Lemma sub_max p r : (p < k)%nat -> In r G -> col_max (map (stop p) (sub_of G p r)) = max_right G p.
+  Proof.
+    intros Hp Hr. pose proof (cc_sub p r Hp Hr) as H. unfold check_sub in H. cbv zeta in H.
+    apply andb_true_iff in H as [H _]. apply andb_true_iff in H as [_ H]. now apply Z.eqb_eq.
   Qed.
 
   (* completeness, one coordinate at a time *)
@@ -531,24 +538,47 @@ Section Grid.
     intros Hr. destruct (In_nth _ _ 0 (start_in_edges G p r Hr)) as [i [Hi E]]. exists i. split; [exact Hi | now symmetry].
   Qed.
 
-  (* the largest right edge of the group belongs to the last bin: a value below it and at or above the last left
-     edge is inside every last-bin row (needs the right edges of equal left edges to agree) *)
-  Lemma last_bin_covers p r x : ends_agree_group G k = true -> (p < k)%nat -> In r G ->
+  (* the largest right edge of the group is reached in EVERY sub-table, hence by its last-bin row: a value below it
+     and at or above the last left edge is inside every last-bin row *)
+  Lemma last_bin_covers p r x : (p < k)%nat -> In r G ->
     start p r = nth (length (edges G p) - 1) (edges G p) 0 -> start p r <= x -> x < max_right G p -> x < stop p r.
   Proof.
-    intros Hea Hp Hr Elast Hlo Hhi.
-    assert (Hne : map (stop p) G <> []) by (destruct G; [contradiction | discriminate]).
-    pose proof (col_max_in _ Hne) as Hm. fold (max_right G p) in Hm.
-    apply in_map_iff in Hm as [r' [Er' Hr']].
+    intros Hp Hr Elast Hlo Hhi.
+    assert (Hne : map (stop p) (sub_of G p r) <> []).
+    { pose proof (self_in_sub p r Hr) as Hs. destruct (sub_of G p r); [contradiction | discriminate]. }
+    pose proof (col_max_in _ Hne) as Hm. rewrite (sub_max p r Hp Hr) in Hm.
+    apply in_map_iff in Hm as [r' [Er' Hr'T]]. pose proof (sub_incl p r r' Hr'T) as Hr'.
     destruct (start_is_edge p r' Hr') as [j [Hj Ej]].
     destruct (Nat.eq_dec (S j) (length (edges G p))) as [Hlast|Hnl].
-    - (* r' is a last-bin row too: same right edge *)
-      unfold ends_agree_group in Hea. rewrite forallb_forall in Hea. specialize (Hea p ltac:(apply in_seq; lia)).
-      rewrite forallb_forall in Hea. specialize (Hea r Hr). rewrite forallb_forall in Hea. specialize (Hea r' Hr').
-      assert (Es : start p r = start p r') by (rewrite Elast, Ej; f_equal; lia).
-      rewrite Es, Z.eqb_refl in Hea. simpl in Hea. apply Z.eqb_eq in Hea. lia.
+    - (* r' is the last-bin row of r's own sub-table: it is r *)
+      assert (Es : start p r' = start p r) by (rewrite Elast, Ej; f_equal; lia).
+      assert (r' = r).
+      { apply (NoDup_map_inj (start p) (sub_of G p r)); [now apply sub_starts_nodup | exact Hr'T | now apply self_in_sub | exact Es]. }
+      subst r'. lia.
     - exfalso. pose proof (stop_next p r' j Hp Hr' Ej ltac:(lia)) as Es.
       pose proof (increasing_nth_le (edges G p) (S j) (length (edges G p) - 1) (edges_increasing G p) ltac:(lia)). lia.
+  Qed.
+
+  (* rows with the same left edge have the same right edge - for every proper bin (a last bin whose right edge is not
+     above its left edge, which the validation tolerates, is never selected inside the covered range) *)
+  Lemma ends_agree_proper p r r' : (p < k)%nat -> In r G -> In r' G -> start p r = start p r' ->
+    start p r < stop p r -> stop p r = stop p r'.
+  Proof.
+    intros Hp Hr Hr' Es Hproper.
+    destruct (start_is_edge p r Hr) as [j [Hj Ej]].
+    destruct (Nat.eq_dec (S j) (length (edges G p))) as [Hlast|Hnl].
+    - assert (El : start p r = nth (length (edges G p) - 1) (edges G p) 0) by (rewrite Ej; f_equal; lia).
+      assert (Hub : forall q, In q G -> stop p q <= max_right G p).
+      { intros q Hq. unfold max_right. apply col_max_ub. now apply in_map. }
+      assert (Hmax : forall q, In q G -> start p q = start p r -> stop p q = max_right G p).
+      { intros q Hq Eq. pose proof (Hub q Hq) as U. pose proof (Hub r Hr) as Ur.
+        destruct (Z.eq_dec (stop p q) (max_right G p)) as [|Hne]; [assumption|]. exfalso.
+        assert (L : stop p q < max_right G p) by lia.
+        destruct (Z.le_gt_cases (start p q) (stop p q)) as [Hle|Hgt].
+        - pose proof (last_bin_covers p q (stop p q) Hp Hq ltac:(congruence) Hle L). lia.
+        - pose proof (last_bin_covers p q (start p q) Hp Hq ltac:(congruence) ltac:(lia) ltac:(lia)). lia. }
+      rewrite (Hmax r Hr eq_refl), (Hmax r' Hr' (eq_sym Es)). reflexivity.
+    - rewrite (stop_next p r j Hp Hr Ej ltac:(lia)). symmetry. apply (stop_next p r' j Hp Hr'); [congruence | lia].
   Qed.
 End Grid.
 
@@ -581,17 +611,16 @@ Qed.
 
 Lemma wf_group k d key : wf k d = true -> group d key <> [] ->
   (0 < k)%nat /\ (forall r, In r (group d key) -> length (rbins r) = k) /\
-  check_complete (group d key) k = true /\ ends_agree_group (group d key) k = true.
+  check_complete (group d key) k = true.
 Proof.
-  unfold wf, valid, ends_agree, shaped. intros H Hne.
-  apply andb_true_iff in H as [H He]. apply andb_true_iff in H as [Hs H].
+  unfold wf, valid, shaped. intros H Hne.
+  apply andb_true_iff in H as [Hs H].
   apply andb_true_iff in H as [H Hc]. apply andb_true_iff in H as [_ Hk].
   pose proof (group_key_present d key Hne) as Hin.
-  rewrite forallb_forall in Hs, Hc, He. repeat split.
+  rewrite forallb_forall in Hs, Hc. repeat split.
   - now apply Nat.ltb_lt.
   - intros r Hr. apply group_In in Hr as [Hr _]. now apply Nat.eqb_eq, Hs.
   - now apply Hc.
-  - now apply He.
 Qed.
 
 Lemma nth_map_seq {A} (f : nat -> A) k p dflt : (p < k)%nat -> nth p (map f (seq 0 k)) dflt = f p.
@@ -625,8 +654,7 @@ Section OneGroup.
   Hypothesis Hk : (0 < k)%nat.
   Hypothesis Hshape : forall r, In r G -> length (rbins r) = k.
   Hypothesis Hcc : check_complete G k = true.
-  Hypothesis Hea : ends_agree_group G k = true.
-  Local Set Default Proof Using "Hne Hk Hshape Hcc Hea".
+  Local Set Default Proof Using "Hne Hk Hshape Hcc".
 
   (* exactly one row carries the chosen left edges *)
   Lemma chosen_row s : exists r, matches G (chosen G k s) = [r] /\ In r G /\ starts r = chosen G k s.
@@ -654,7 +682,7 @@ Section OneGroup.
     set (i := bin_of (edges G p) (param p s)) in *. rewrite low_edge_nth in Hlo.
     destruct (Hmid Hlo) as [Hle Hlt]. unfold in_bin. split; [now rewrite Es|].
     destruct (Nat.eq_dec (S i) (length (edges G p))) as [Hlast|Hnl].
-    - apply (last_bin_covers G k Hshape Hcc p r (param p s) Hea Hp Hr); [|lia|exact Hhi].
+    - apply (last_bin_covers G k Hshape Hcc p r (param p s) Hp Hr); [|lia|exact Hhi].
       rewrite Es. f_equal. lia.
     - rewrite (stop_next G k Hshape Hcc p r i Hp Hr Es ltac:(lia)). apply Hlt. lia.
   Qed.
@@ -730,7 +758,7 @@ Section OneGroup.
     destruct (start_is_edge G k Hshape Hcc p r0 Hr0) as [j [Hj Ej]].
     destruct (Nat.eq_dec (S j) (length (edges G p))) as [Hlast|Hnl].
     - exfalso. assert (El : start p r0 = nth (length (edges G p) - 1) (edges G p) 0) by (rewrite Ej; f_equal; lia).
-      pose proof (last_bin_covers G k Hshape Hcc p r0 (param p s) Hea Hp Hr0 El ltac:(lia) Hhi). lia.
+      pose proof (last_bin_covers G k Hshape Hcc p r0 (param p s) Hp Hr0 El ltac:(lia) Hhi). lia.
     - rewrite Ex, (stop_next G k Hshape Hcc p r0 j Hp Hr0 Ej ltac:(lia)). apply nth_In. lia.
   Qed.
 End OneGroup.
@@ -764,8 +792,8 @@ Theorem lookup_row_found ext d k s : wf k d = true -> group d (skeys s) <> [] ->
             matches (group d (skeys s)) (chosen (group d (skeys s)) k s) = [r] /\
             In r d /\ rkeys r = skeys s /\ starts r = chosen (group d (skeys s)) k s.
 Proof.
-  intros Hwf Hne Hin. destruct (wf_group k d (skeys s) Hwf Hne) as [Hk [Hshape [Hcc Hea]]].
-  destruct (chosen_row _ k Hne Hk Hshape Hcc Hea s) as [r [Hm [Hr Es]]].
+  intros Hwf Hne Hin. destruct (wf_group k d (skeys s) Hwf Hne) as [Hk [Hshape Hcc]].
+  destruct (chosen_row _ k Hne Hk Hshape Hcc s) as [r [Hm [Hr Es]]].
   exists r. apply group_In in Hr as Hr'. destruct Hr' as [Hrd Hrk].
   repeat split; try assumption.
   unfold lookup_row. remember (group d (skeys s)) as G eqn:EG.
@@ -776,6 +804,18 @@ Proof.
   rewrite E, Hm. reflexivity.
 Qed.
 
+(* what had to be assumed before fix 1620b43e is now a consequence of the validation *)
+Theorem valid_ends_agree k d r r' p : wf k d = true -> In r d -> In r' d -> rkeys r = rkeys r' -> (p < k)%nat ->
+  start p r = start p r' -> start p r < stop p r -> stop p r = stop p r'.
+Proof.
+  intros Hwf Hr Hr' Ek Hp Es Hproper.
+  assert (HrG : In r (group d (rkeys r))) by (now apply group_In).
+  assert (Hr'G : In r' (group d (rkeys r))) by (apply group_In; split; [exact Hr' | now symmetry]).
+  assert (Hne : group d (rkeys r) <> []) by (intros E; rewrite E in HrG; contradiction).
+  destruct (wf_group k d (rkeys r) Hwf Hne) as [Hk [Hshape Hcc]].
+  now apply (ends_agree_proper _ k Hshape Hcc p r r').
+Qed.
+
 (* bin membership + uniqueness *)
 Theorem bin_membership ext d k s : wf k d = true -> group d (skeys s) <> [] ->
   (forall p, (p < k)%nat -> in_range (group d (skeys s)) p (param p s)) ->
@@ -783,14 +823,14 @@ Theorem bin_membership ext d k s : wf k d = true -> group d (skeys s) <> [] ->
             (forall p, (p < k)%nat -> in_bin p r (param p s)) /\
             (forall r', In r' d -> rkeys r' = skeys s -> (forall p, (p < k)%nat -> in_bin p r' (param p s)) -> r' = r).
 Proof.
-  intros Hwf Hne Hin. destruct (wf_group k d (skeys s) Hwf Hne) as [Hk [Hshape [Hcc Hea]]].
+  intros Hwf Hne Hin. destruct (wf_group k d (skeys s) Hwf Hne) as [Hk [Hshape Hcc]].
   destruct (lookup_row_found ext d k s Hwf Hne (or_intror Hin)) as [r [Hl [Hm [Hrd [Hrk Es]]]]].
   assert (Hr : In r (group d (skeys s))) by (now apply group_In).
   exists r. repeat split; try assumption.
-  - apply (chosen_in_bin _ k Hne Hk Hshape Hcc Hea r s p Hr Es H (Hin p H)).
-  - apply (chosen_in_bin _ k Hne Hk Hshape Hcc Hea r s p Hr Es H (Hin p H)).
+  - apply (chosen_in_bin _ k Hne Hk Hshape Hcc r s p Hr Es H (Hin p H)).
+  - apply (chosen_in_bin _ k Hne Hk Hshape Hcc r s p Hr Es H (Hin p H)).
   - intros r' Hr'd Hr'k Hb. assert (Hr' : In r' (group d (skeys s))) by (now apply group_In).
-    pose proof (in_bins_is_chosen _ k Hne Hk Hshape Hcc Hea r' s Hr' Hb) as E'.
+    pose proof (in_bins_is_chosen _ k Hne Hk Hshape Hcc r' s Hr' Hb) as E'.
     assert (Hmem : In r' (matches (group d (skeys s)) (chosen (group d (skeys s)) k s))).
     { unfold matches. apply filter_In. split; [exact Hr' | now apply zlist_eqb_eq]. }
     rewrite Hm in Hmem. destruct Hmem as [<-|[]]. reflexivity.
@@ -806,14 +846,14 @@ Theorem extrapolation d k s : wf k d = true -> group d (skeys s) <> [] ->
        (in_range G p (param p s) -> in_bin p r (param p s))) /\
   (forall p, (p < k)%nat -> ~ in_range G p (param p s) -> lookup_row false d k s = Rejected EConfig).
 Proof.
-  intros Hwf Hne G. destruct (wf_group k d (skeys s) Hwf Hne) as [Hk [Hshape [Hcc Hea]]]. split.
+  intros Hwf Hne G. destruct (wf_group k d (skeys s) Hwf Hne) as [Hk [Hshape Hcc]]. split.
   - destruct (lookup_row_found true d k s Hwf Hne (or_introl eq_refl)) as [r [Hl [Hm [Hrd [Hrk Es]]]]].
     assert (Hr : In r G) by (now apply group_In).
     exists r. repeat split; try assumption.
-    + now apply (chosen_below G k Hne Hk Hshape Hcc Hea r s p Es H).
-    + now apply (chosen_above G k Hne Hk Hshape Hcc Hea r s p Es H).
-    + apply (chosen_in_bin G k Hne Hk Hshape Hcc Hea r s p Hr Es H H0).
-    + apply (chosen_in_bin G k Hne Hk Hshape Hcc Hea r s p Hr Es H H0).
+    + now apply (chosen_below G k Hne Hk Hshape Hcc r s p Es H).
+    + now apply (chosen_above G k Hne Hk Hshape Hcc r s p Es H).
+    + apply (chosen_in_bin G k Hne Hk Hshape Hcc r s p Hr Es H H0).
+    + apply (chosen_in_bin G k Hne Hk Hshape Hcc r s p Hr Es H H0).
   - intros p Hp Hout. now apply (lookup_row_out false d k s p Hne eq_refl Hp).
 Qed.
 
@@ -828,16 +868,16 @@ Proof.
   intros Hwf Hl p r0 Hp Hr0d Hr0k.
   assert (Hr0 : In r0 (group d (skeys s))) by (now apply group_In).
   assert (Hne : group d (skeys s) <> []) by (intros E; rewrite E in Hr0; contradiction).
-  destruct (wf_group k d (skeys s) Hwf Hne) as [Hk [Hshape [Hcc Hea]]].
+  destruct (wf_group k d (skeys s) Hwf Hne) as [Hk [Hshape Hcc]].
   assert (Es : starts r = chosen (group d (skeys s)) k s).
-  { destruct (chosen_row _ k Hne Hk Hshape Hcc Hea s) as [r1 [Hm [Hr1 Es1]]].
+  { destruct (chosen_row _ k Hne Hk Hshape Hcc s) as [r1 [Hm [Hr1 Es1]]].
     unfold lookup_row in Hl. remember (group d (skeys s)) as G eqn:EG. destruct G as [|g0 t]; [discriminate|].
     destruct (negb ext && existsb (fun q => out_one (g0 :: t) q (param q s)) (seq 0 k)); [discriminate|].
     rewrite Hm in Hl. now injection Hl as <-. }
   split.
-  - intros Ex. apply (chosen_on_start _ k Hne Hk Hshape Hcc Hea r r0 s p Es Hp Hr0 Ex).
+  - intros Ex. apply (chosen_on_start _ k Hne Hk Hshape Hcc r r0 s p Es Hp Hr0 Ex).
   - intros Ex Hproper Hhi.
-    pose proof (chosen_on_stop _ k Hne Hk Hshape Hcc Hea r r0 s p Es Hp Hr0 Ex Hproper Hhi) as E. split; [exact E|].
+    pose proof (chosen_on_stop _ k Hne Hk Hshape Hcc r r0 s p Es Hp Hr0 Ex Hproper Hhi) as E. split; [exact E|].
     intros ->. lia.
 Qed.
 
